@@ -36,5 +36,6 @@ echo "== with patch"; run_demos; P=$?
 for d in $DEMOS; do rm -f "$WT/tests/$d.rs" "$WT/examples/$d.rs"; done
 (cd "$WT" && timeout 900 cargo test --workspace --no-fail-fast --offline > "$WT/suite.log" 2>&1 < /dev/null); S=$?
 pkill -x sleep 2>/dev/null
+cp "$WT/suite.log" "/tmp/confirm_$NAME.suite.log" 2>/dev/null
 echo "== suite with patch exit=$S: $(grep -E '^test result' "$WT/suite.log" | tr '\n' ' ')"
 echo "SUMMARY name=$NAME demo_unchanged_ok=$([ $U -eq 0 ] && echo yes || echo no) demo_patched_fails=$([ $P -ne 0 ] && echo yes || echo no) suite_ok=$([ $S -eq 0 ] && echo yes || echo no)"
